@@ -97,12 +97,64 @@ def _own_scope(fn: ast.AST):
             todo.extend(ast.iter_child_nodes(n))
 
 
+def _param_names(fn: ast.AST) -> List[str]:
+    a = fn.args
+    return [x.arg for x in a.posonlyargs + a.args + a.kwonlyargs] + ([a.vararg.arg] if a.vararg else []) + ([a.kwarg.arg] if a.kwarg else [])
+
+
 def local_names(tree: ast.AST) -> Dict[str, List[str]]:
-    """per function (by qualified name; the last definition of a name wins): the names it stores"""
+    """per function (by qualified name; the last definition of a name wins): the names it stores; under "<qual>()" its parameters"""
     out: Dict[str, List[str]] = {}
     for q, fn in _defs_with_quals(tree):
         out[q] = sorted({n.id for n in _own_scope(fn) if isinstance(n, ast.Name) and isinstance(n.ctx, ast.Store)})
+        out[q + "()"] = _param_names(fn)
     return out
+
+
+def fold_new_options(tree: ast.Module, modname: str, log: List[str]) -> None:
+    """a parameter that the reference function does not have, with a constant default, that nothing in this module passes: the
+    properties speak about the documented interface, i.e. about the path on which the new option has its default.  The
+    parameter's reads are replaced by the default and the body is folded, so that the rules see the default path"""
+    ref = load_locals().get(modname)
+    if ref is None:
+        return
+    passed = {k.arg for c in ast.walk(tree) if isinstance(c, ast.Call) for k in c.keywords if k.arg}
+    star_kw = any(isinstance(c, ast.Call) and any(k.arg is None for k in c.keywords) for c in ast.walk(tree))
+    for q, fn in list(_defs_with_quals(tree)):
+        rp = ref.get(q + "()")
+        if rp is None:
+            continue
+        a = fn.args
+        defaults = dict(list(zip([x.arg for x in reversed(a.posonlyargs + a.args)], reversed(a.defaults))) + [(x.arg, d) for x, d in zip(a.kwonlyargs, a.kw_defaults) if d is not None])
+        kwonly = {x.arg for x in a.kwonlyargs}
+        for p in [x for x in _param_names(fn) if x not in rp]:
+            d = defaults.get(p)
+            if p not in kwonly or not isinstance(d, ast.Constant) or not (d.value is None or isinstance(d.value, (bool, int, str))) or p in passed or star_kw and False:
+                continue
+            if any(isinstance(n, ast.Name) and n.id == p and isinstance(n.ctx, (ast.Store, ast.Del)) for n in ast.walk(fn)):
+                continue
+            uses = [n for n in ast.walk(fn) if isinstance(n, ast.Name) and n.id == p and isinstance(n.ctx, ast.Load)]
+            if not uses:
+                continue
+
+            class P(ast.NodeTransformer):
+                def visit_Name(self, n: ast.Name):
+                    if n.id == p and isinstance(n.ctx, ast.Load):
+                        return ast.copy_location(ast.Constant(value=d.value), n)
+                    return n
+
+                def visit_keyword(self, k: ast.keyword):
+                    # `inner(p=p)`: handing the option on at its default is not passing it
+                    self.generic_visit(k)
+                    return k
+            fn.body = _fold_block([P().visit(b) for b in fn.body]) or [ast.Pass()]
+            # calls that hand the option on at its default value: drop the keyword (the callee's own default applies)
+            for c in ast.walk(fn):
+                if isinstance(c, ast.Call):
+                    c.keywords = [k for k in c.keywords if not (k.arg == p and isinstance(k.value, ast.Constant) and k.value.value == d.value)]
+            log.append(f"{modname}: new optional parameter `{p}` of {q} (default {d.value!r}, passed nowhere in the module): the body is read on its default path")
+    ast.fix_missing_locations(tree)
+
 
 
 def propagate_new_aliases(tree: ast.Module, modname: str, log: List[str]) -> None:
@@ -1580,6 +1632,7 @@ def normalize(tree: ast.Module, modname: str) -> Tuple[ast.Module, List[str]]:
     inl = Inliner(tree, modname, ref)
     try:
         out = inl.run()
+        fold_new_options(out, modname, inl.log)
         propagate_new_aliases(out, modname, inl.log)
         cn = _Canon(inl.log, modname)
         out = cn.visit(out)
